@@ -1,8 +1,8 @@
 #!/bin/bash
 # lib/seed_run.sh <id> [check args]: run ./check <ID> against /repo + the seeded patch of /verif/seeded/<ID> (or /tmp/seed-<id>/SEED) in a scratch copy
 id=$1; shift; ID=$(echo $id | tr a-z A-Z)
-P=/verif/seeded/$ID/patch.diff; [ -f $P ] || P=/tmp/seed-$id/SEED/patch.diff
+NAME=${SEED_NAME:-$ID}; P=/verif/seeded/$NAME/patch.diff; [ -f $P ] || P=${SEED_W:-/tmp/seed-$id}/SEED/patch.diff
 cd /verif; lib/scratch.sh new s$id >/dev/null && (cd /tmp/vscratch-s$id/repo && git apply $P) || { echo "apply failed"; exit 2; }
 lib/scratch.sh run s$id $ID -tier quick "$@" 2>&1 | grep -av "ld:\|^#\|NOTE:" > /tmp/seedrun-$id.log
-echo "== $ID vs seeded patch: $(grep -ac "^VIOLATION" /tmp/seedrun-$id.log) VIOLATION lines"; grep -aE "^$ID tier|kind=" /tmp/seedrun-$id.log | sort | uniq -c | sort -rn | head -8
+echo "== $ID vs seeded patch $NAME: $(grep -ac "^VIOLATION" /tmp/seedrun-$id.log) VIOLATION lines"; grep -aE "^$ID tier|kind=" /tmp/seedrun-$id.log | sort | uniq -c | sort -rn | head -8
 lib/scratch.sh rm s$id
